@@ -59,6 +59,15 @@ def run_case(c, femio, meshio, work):
     for v in c['variables']:
         data = np.array([fl(x) for x in v['flat']], dtype=float).reshape(v['shape'])
         fd.nodal_data.update_data(np.array(v['ids'], dtype=np.int64), {v['name']: data})
+    # history: values of existing variables replaced through the public API
+    for ow in c.get('overwrites', []):
+        data = np.array([fl(x) for x in ow['flat']], dtype=float).reshape(ow['shape'])
+        if ow['how'] == 'overwrite':
+            fd.nodal_data.overwrite(ow['name'], data)
+        elif ow['how'] == 'setter':
+            fd.nodal_data[ow['name']].data = data
+        else:
+            fd.nodal_data.set_attribute_data(ow['name'], data)
     # what femio holds just before the export
     held = {'node_ids': [int(i) for i in fd.nodes.ids],
             'points': [[ex(x) for x in p] for p in fd.nodes.data],
